@@ -68,8 +68,8 @@ def gwDump (w : World) : String :=
     let q := if H.hctxs.isEmpty then "-" else String.intercalate "-" (H.hctxs.map toString)
     let ps := (List.range H.nprocs).map fun p =>
       let P := w.proc h p
-      s!",P{gwPState P.state}{P.load},{P.statLoad},{P.disabledUntil}"
-    s!"H{H.load},{H.statLoad},{H.active},Q{q}" ++ String.join ps ++ ";"
+      s!",P{gwPState P.state}{P.load},{w.pstat H.label p},{P.disabledUntil}"
+    s!"H{H.load},{w.hstat H.label},{H.active},Q{q}" ++ String.join ps ++ ";"
   let slots := (List.range w.nslots).map fun s =>
     match w.slot s with
     | none => "S-;"
@@ -79,7 +79,7 @@ def gwDump (w : World) : String :=
       let ev := (if a.evIn then 1 else 0) + (if a.evOut then 2 else 0) + (if a.evRdhup then 8 else 0)
       s!"S{gwOptIdx c.link.host}.{gwOptIdx c.link.proc}.{gwCState c.link.state}.{a.reconnects}." ++
       s!"{if c.link.fd then 1 else 0}.{ev}.{if a.started then 1 else 0}.{a.wbLen}.{a.bytesOut}." ++
-      s!"{a.readTs}.{a.writeTs};"
+      s!"{a.readTs}.{a.writeTs}.{a.dispatched};"
   String.join hosts ++ String.join slots ++
     s!"G{w.globalActive},F{w.curFds},L{w.lastUsed},N{if w.noteSent then 1 else 0},T{w.now}"
 
@@ -99,7 +99,8 @@ def gwLine : List String → String
     match bal.toNat?, wkr.toNat?, ns.toNat?, ((hosts.splitOn "/").filter (· ≠ "")).mapM gwSpec with
     | some b, some k, some n, some specs =>
       if n < 1 ∨ n > 16 ∨ b > 3 ∨ specs.isEmpty ∨ specs.length > 16 then "bad-op" else
-      let w0 := initWorld b (k ≠ 0) n specs
+      -- flags: bit 0 worker, bit 1 unlabeled hosts (one statistics label for all)
+      let w0 := if k / 2 % 2 = 1 then anonymize (initWorld b (k % 2 = 1) n specs) else initWorld b (k % 2 = 1) n specs
       let r := gwRunOps w0 ops
       -- end of case: every connection is reset, then the deferred closes run
       let wf := schedRun ((List.range n).foldl (fun w s => finish w s true) r.1)
